@@ -153,6 +153,8 @@ class Facts:
     def __init__(self):
         self.facts = []          # (a, rel, b)
         self.hyp_lb = {}         # atom -> Fraction lower bound (hypotheses / inductive assumptions)
+        self.conds = []          # (condition, value): compound conditions that cannot be split into atomic facts (a true
+                                 # disjunction, a false conjunction); not used for proofs, but every counter-model must satisfy them
 
     def add_cond(self, cond, val):
         """Record a branch condition known to have truth value `val`."""
@@ -169,6 +171,9 @@ class Facts:
         if cond[0] == "bin" and cond[1] in REL:
             rel = cond[1] if val else NEG[cond[1]]
             self.facts.append((cond[2], rel, cond[3]))
+            return
+        if cond[0] == "bin" and cond[1] in ("&&", "||"):
+            self.conds.append((cond, val))
 
     def add(self, a, rel, b):
         self.facts.append((a, rel, b))
@@ -403,6 +408,8 @@ class Prover:
         atoms = []
         for t in terms:
             leaves(t, atoms)
+        for cnd, _v in self.f.conds:
+            cond_leaves(cnd, atoms)
         rnd = random.Random(seed)
         for _ in range(tries):
             env = {}
@@ -424,6 +431,11 @@ class Prover:
                 if vx is None or vy is None or not holds(rel, vx, vy):
                     ok = False
                     break
+            if ok:
+                for cnd, val in self.f.conds:
+                    if eval_cond(cnd, env) is not val:
+                        ok = False          # violated, or not evaluable: the model does not describe a path that reaches the site
+                        break
             if not ok:
                 continue
             va, vb = evaluate(a, env), evaluate(b, env)
